@@ -79,7 +79,9 @@ type pending struct {
 }
 
 // judge runs every validator variant on a packed block; returns a failure description ("" = property holds here).
-func judge(ctx *hx.Ctx, c *cg.Chain, st *cg.Step, tag string) (string, string) {
+type probes struct{ pre, postParent, post cg.CacheEntry }
+
+func judge(ctx *hx.Ctx, c *cg.Chain, st *cg.Step, tag string, pr *probes) (string, string) {
 	h := st.Block.Header()
 	now := h.Timestamp()
 	want := verdict{class: "accept", root: st.Stage.Hash(), rroot: st.Receipts.RootHash(), gas: h.GasUsed()}
@@ -89,7 +91,10 @@ func judge(ctx *hx.Ctx, c *cg.Chain, st *cg.Step, tag string) (string, string) {
 	}
 	var vs []variant
 	vs = append(vs, variant{"cold", process(c.Cold(), st.Parent, st.Block, now, 0)})
+	pr.pre = cg.ProbeCache(c.Warm, st.Parent.Header.ID())
 	vs = append(vs, variant{"warm", process(c.Warm, st.Parent, st.Block, now, st.Conflicts)})
+	pr.postParent = cg.ProbeCache(c.Warm, st.Parent.Header.ID())
+	pr.post = cg.ProbeCache(c.Warm, h.ID())
 	vs = append(vs, variant{"warm-again", process(c.Warm, st.Parent, st.Block, now+uint64(c.R.Intn(1000)), st.Conflicts)})
 	vs = append(vs, variant{"cold-conflicts", process(c.Cold(), st.Parent, st.Block, now, uint32(1+c.R.Intn(9)))})
 	if rc, repo2, err := c.Restarted(); err == nil {
@@ -192,10 +197,30 @@ func runChain(ctx *hx.Ctx, spec *cg.Spec, stop int) {
 			if gap := (s.Block.Header().Timestamp() - s.Parent.Header.Timestamp()) / cg.Interval; gap > 1 {
 				ctx.Cov.Count("blocks-with-missed-slots")
 			}
-			if class, msg := judge(ctx, c, s, tag); class != "" {
+			var pr probes
+			if class, msg := judge(ctx, c, s, tag, &pr); class != "" {
 				fail(class, msg, hgt, true)
 				return
 			}
+			// the cache model: one warm validation step (entry for the parent, fresh reads, updates, events -> entry for the block)
+			var fresh *cg.PoAFresh
+			if !view.PoS {
+				fresh, err = c.PoAFreshAt(s.Parent)
+				if err != nil {
+					hx.Fatal("fresh reads: %v", err)
+				}
+				if fresh.Walk != fresh.Pick {
+					fail("candidate-reads-differ", fmt.Sprintf("authority.Candidates (packer) gives [%s], AllCandidates+Pick (validator) gives [%s] at #%d", fresh.Walk, fresh.Pick, hgt), hgt, true)
+					return
+				}
+				pend = append(pend, pending{fmt.Sprintf("K %x |%s", fresh.MBP, fresh.All), fresh.Walk + " ; " + fresh.Pick, "candidates", hgt})
+			}
+			signer, _ := s.Block.Header().Signer()
+			ups := c.UpdatesFor(s.Parent, signer, s.Block.Header().Timestamp())
+			cl, cw := c.CacheLines(view, fresh, s.Block, s.Receipts, ups, pr.pre, pr.postParent, pr.post)
+			pend = append(pend, pending{cl, cw, "cache", hgt})
+			ctx.Cov.Count("cache-entry-for-parent:" + pr.pre.Kind)
+			ctx.Cov.Count("cache-entry-for-block:" + pr.post.Kind)
 			ex := cg.ExecOf(s.Block, s.Receipts, s.Stage.Hash())
 			pend = append(pend, pending{c.VLine(s.Parent, view, s.Block, s.Block.Header().Timestamp(), ex), "accept", "process", hgt})
 			pend = append(pend, pending{c.PLine(s, view), cg.PExpected(s), "pack", hgt})
@@ -223,8 +248,8 @@ func runChain(ctx *hx.Ctx, spec *cg.Spec, stop int) {
 			// the implementation's own answers satisfied the property on this block (judge passed): the model no longer
 			// corresponds to the code
 			fail("correspondence:"+p.what, fmt.Sprintf("correspondence Validation.Body.%s ~ real %s no longer checks at #%d (the theorems of "+
-				"Properties/C01.v are about the model): impl=%q model=%q line=%q", map[string]string{"process": "process", "pack": "pack_block"}[p.what],
-				map[string]string{"process": "consensus.Process", "pack": "packer.Schedule/Adopt/Pack"}[p.what], p.height, p.want, got, p.line), p.height, false)
+				"Properties/C01.v are about the model): impl=%q model=%q line=%q", map[string]string{"process": "process", "pack": "pack_block", "candidates": "cands_walk/pick (Validation.Cache)", "cache": "poa_step/pos_step (Validation.Cache)"}[p.what],
+				map[string]string{"process": "consensus.Process", "pack": "packer.Schedule/Adopt/Pack", "candidates": "authority.Candidates / scheduler.Candidates.Pick", "cache": "the validators cache (poaCacher/posCacher.Handle)"}[p.what], p.height, p.want, got, p.line), p.height, false)
 			return
 		}
 	}
